@@ -204,23 +204,30 @@ const watchdog = 8 * time.Second
 
 type foWorker struct {
 	probeDir, scratch string
-	e                 *env
-	cred              bool
+	envs              map[bool]*env // one container per credential mode, reused across cases
+	e                 *env          // the one in use
 }
 
 func (w *foWorker) env(cred bool) (*env, error) {
-	if w.e != nil && !w.e.dead && w.cred == cred {
-		return w.e, nil
+	if w.envs == nil {
+		w.envs = map[bool]*env{}
 	}
-	if w.e != nil {
-		w.e.destroy()
+	if e := w.envs[cred]; e != nil && !e.dead {
+		w.e = e
+		return e, nil
 	}
 	e, err := buildEnv(envCfg{Mounts: []string{"w", "tmp"}, Cred: cred, DevNul: true}, w.probeDir, w.scratch)
 	if err != nil {
 		return nil, err
 	}
-	w.e, w.cred = e, cred
+	w.envs[cred], w.e = e, e
 	return e, nil
+}
+
+func (w *foWorker) close() {
+	for _, e := range w.envs {
+		e.destroy()
+	}
 }
 
 // call runs f with a watchdog: a file operation that is still blocked after the cap is recorded as
@@ -423,9 +430,7 @@ func fileopsMain(args []string) error {
 			for i := range ch {
 				res[i] = w.run(cs[i])
 			}
-			if w.e != nil {
-				w.e.destroy()
-			}
+			w.close()
 		}()
 	}
 	for i := range cs {
